@@ -69,7 +69,7 @@ def strategy(tier):
         max_machines=5,
         max_total=30 if big else 20,
         benchmarks=("ft06",),
-        big_ok=True,
+        big_ok=2,
     )
     comp = st.lists(
         st.tuples(st.sampled_from(gen.FILTER_NAMES), st.integers(0, 2)).map(list),
